@@ -95,7 +95,7 @@ class MergeDicts(Unit):
     name = "U.merge_dicts"
     functions = ["orquesta.utils.dictionary.merge_dicts"]
     obligations = {
-        "C06.merge_dicts.spec": {"props": ["C06", "C16"], "text":
+        "C06.merge_dicts.spec": {"props": ["C06", "C16", "C15"], "text":
             "per key: right-only => right's value; both and not both dicts and overwrite => right's value; both dicts => recursive merge; left-only => left's value; result is `left`"},
         "C06.merge_dicts.frame": {"props": ["C06", "C16", "C18"], "text":
             "merge_dicts writes only into `left` and the dicts reachable from `left`; `right` and everything reachable from it is unchanged"},
@@ -373,7 +373,7 @@ class MergeDictsGeneric(Unit):
     name = "U.merge_dicts.generic_key"
     functions = ["orquesta.utils.dictionary.merge_dicts"]
     obligations = {
-        "C06.merge_dicts.per_key": {"props": ["C06", "C16"], "text":
+        "C06.merge_dicts.per_key": {"props": ["C06", "C16", "C15"], "text":
             "for an arbitrary key k of `right` (arbitrary dicts, arbitrary values): k absent from left => left[k] becomes right[k]; both values dicts => left[k] stays the same object and is merged recursively with right[k]; otherwise overwrite => left[k] becomes exactly right[k], no overwrite => unchanged; no other key of left and nothing of right is written; None arguments return the other one"},
     }
     assumptions = [
